@@ -5,7 +5,7 @@ set -e
 cd "$(dirname "$0")"
 export PYTHONDONTWRITEBYTECODE=1 PYTHONHASHSEED=0
 REPO="${VERIF_REPO:-/repo}"
-mkdir -p bin .work replays evidence
+mkdir -p bin .work replays evidence coq/Gen
 /venv/bin/python tools/gen_tables.py "$REPO" coq/Gen/Generated.v
 cd coq
 coq_makefile -f _CoqProject -o Makefile >/dev/null
